@@ -229,7 +229,8 @@ def propagate_module_constants(tree):
 
 def split_tuple_assignments(tree):
     """Normalisation: ``a, b = x, y`` with as many expressions as targets, none
-    of which reads a target, is read as ``a = x`` followed by ``b = y``."""
+    of which reads a target (other than its own: ``a, b = a + p, b + q``), is
+    read as ``a = x`` followed by ``b = y``."""
     count = 0
     for holder in ast.walk(tree):
         for field in ('body', 'orelse', 'finalbody'):
@@ -247,13 +248,83 @@ def split_tuple_assignments(tree):
                     reads = {n.id for v in st.value.elts for n in ast.walk(v) if isinstance(n, ast.Name)}
                     pure = not any(isinstance(n, ast.Call) for v in st.value.elts for n in ast.walk(v)) or \
                         all(isinstance(t, ast.Name) for t in st.targets[0].elts)
-                    if not (tnames & reads) and pure:
+                    # `a, b = a + x, b + y`: element i reads no target but its own - the
+                    # same as the two statements in sequence
+                    own_only = all(isinstance(t, ast.Name) for t in st.targets[0].elts) and \
+                        len({t.id for t in st.targets[0].elts}) == len(st.targets[0].elts) and all(
+                        not (({n.id for n in ast.walk(v) if isinstance(n, ast.Name)} & tnames) - {t.id})
+                        for t, v in zip(st.targets[0].elts, st.value.elts))
+                    if (not (tnames & reads) or own_only) and pure:
                         for t, v in zip(st.targets[0].elts, st.value.elts):
                             new.append(ast.copy_location(ast.Assign(targets=[t], value=v), st))
                         count += 1
                         continue
                 new.append(st)
             setattr(holder, field, new)
+    return count
+
+
+def unroll_join_tails(tree):
+    """Normalisation: ``return A + ''.join(C)`` / ``x = A + ''.join(C)`` where C
+    is a comprehension (or a local bound to one by the statement just before,
+    and used nowhere else) is read as the accumulation it abbreviates:
+    ``x = A; for ...: if ...: x += E; return x``."""
+    count = 0
+    for fn in ast.walk(tree):
+        if not isinstance(fn, (ast.FunctionDef, ast.AsyncFunctionDef)):
+            continue
+        for holder in ast.walk(fn):
+            for field in ('body', 'orelse', 'finalbody'):
+                block = getattr(holder, field, None)
+                if not (isinstance(block, list) and block and isinstance(block[0], ast.stmt)):
+                    continue
+                new = []
+                for st in block:
+                    v = st.value if isinstance(st, (ast.Return, ast.Assign)) else None
+                    ok = isinstance(v, ast.BinOp) and isinstance(v.op, ast.Add) \
+                        and isinstance(v.right, ast.Call) and isinstance(v.right.func, ast.Attribute) \
+                        and v.right.func.attr == 'join' and isinstance(v.right.func.value, ast.Constant) \
+                        and v.right.func.value.value == '' and len(v.right.args) == 1 \
+                        and (isinstance(st, ast.Return) or (len(st.targets) == 1
+                                                            and isinstance(st.targets[0], ast.Name)))
+                    if not ok:
+                        new.append(st)
+                        continue
+                    comp = v.right.args[0]
+                    drop_prev = False
+                    if isinstance(comp, ast.Name) and new and isinstance(new[-1], ast.Assign) \
+                            and len(new[-1].targets) == 1 and isinstance(new[-1].targets[0], ast.Name) \
+                            and new[-1].targets[0].id == comp.id \
+                            and isinstance(new[-1].value, (ast.ListComp, ast.GeneratorExp)) \
+                            and sum(1 for n in ast.walk(fn) if isinstance(n, ast.Name) and n.id == comp.id) == 2 \
+                            and not any(isinstance(n, ast.Name) and n.id == comp.id for n in ast.walk(v.left)):
+                        comp, drop_prev = new[-1].value, True
+                    if not isinstance(comp, (ast.ListComp, ast.GeneratorExp)) or any(g.is_async for g in comp.generators):
+                        new.append(st)
+                        continue
+                    acc = st.targets[0].id if isinstance(st, ast.Assign) else 'joined_text'
+                    if any(isinstance(n, ast.Name) and n.id == acc for n in ast.walk(comp)) or \
+                            any(isinstance(n, ast.Name) and n.id == acc for n in ast.walk(v.left)):
+                        new.append(st)
+                        continue
+                    if drop_prev:
+                        new.pop()
+                    inner = [ast.copy_location(ast.AugAssign(target=ast.Name(id=acc, ctx=ast.Store()),
+                                                             op=ast.Add(), value=comp.elt), st)]
+                    for gen in reversed(comp.generators):
+                        for cond in reversed(gen.ifs):
+                            inner = [ast.copy_location(ast.If(test=cond, body=inner, orelse=[]), st)]
+                        inner = [ast.copy_location(ast.For(target=gen.target, iter=gen.iter, body=inner,
+                                                           orelse=[]), st)]
+                    new.append(ast.copy_location(ast.Assign(targets=[ast.Name(id=acc, ctx=ast.Store())],
+                                                            value=v.left), st))
+                    new.extend(inner)
+                    if isinstance(st, ast.Return):
+                        new.append(ast.copy_location(ast.Return(value=ast.Name(id=acc, ctx=ast.Load())), st))
+                    count += 1
+                setattr(holder, field, new)
+    if count:
+        ast.fix_missing_locations(tree)
     return count
 
 
@@ -298,11 +369,172 @@ def unroll_join_accumulations(tree):
     return count
 
 
+def unroll_constant_comprehensions(tree):
+    """Normalisation: a list comprehension over ``range(n)`` with a small
+    constant n and no condition - ``[f(xs[i]) for i in range(3)]`` - is read
+    as the list display it abbreviates, ``[f(xs[0]), f(xs[1]), f(xs[2])]``
+    (after helper expansion n is often the constant argument of a call)."""
+    import copy
+    count = 0
+
+    class Sub(ast.NodeTransformer):
+        def __init__(self, name, value):
+            self.name, self.value = name, value
+
+        def visit_Name(self, node):
+            if node.id == self.name and isinstance(node.ctx, ast.Load):
+                return ast.copy_location(ast.Constant(value=self.value), node)
+            return node
+    for node in ast.walk(tree):
+        if not (isinstance(node, ast.ListComp) and len(node.generators) == 1):
+            continue
+        g = node.generators[0]
+        if g.ifs or g.is_async or not isinstance(g.target, ast.Name):
+            continue
+        it = g.iter
+        if not (isinstance(it, ast.Call) and isinstance(it.func, ast.Name) and it.func.id == 'range'
+                and len(it.args) == 1 and not it.keywords and isinstance(it.args[0], ast.Constant)
+                and type(it.args[0].value) is int and 0 <= it.args[0].value <= 6):
+            continue
+        if any(isinstance(n, ast.Name) and n.id == g.target.id and isinstance(n.ctx, ast.Store)
+               for n in ast.walk(node.elt)) or \
+                any(isinstance(n, (ast.ListComp, ast.GeneratorExp, ast.SetComp, ast.DictComp, ast.Lambda))
+                    for n in ast.walk(node.elt)):
+            continue
+        elts = [Sub(g.target.id, i).visit(copy.deepcopy(node.elt)) for i in range(it.args[0].value)]
+        rep = ast.copy_location(ast.List(elts=elts, ctx=ast.Load()), node)
+        node.__class__ = ast.List
+        node.__dict__.clear()
+        node.__dict__.update(rep.__dict__)
+        count += 1
+    if count:
+        ast.fix_missing_locations(tree)
+    return count
+
+
+def sink_selected_callees(tree):
+    """Normalisation: locals that an if/elif/else chain binds to one of several
+    existing objects (a function, a parameter), used by the statements that
+    follow -
+
+        if a: f = g                 if p: hi, lo = x, y
+        elif b: f = h               else: hi, lo = y, x
+        else: f = k                 hi.items.append(make(lo))
+        f(x, y)
+
+    - are read with those statements written in every branch, the chosen
+    object in place of the local (``g(x, y)`` ...; ``x.items.append(make(y))``
+    ...).  That is the same program when the locals have no other use and
+    nothing in the statements stores them or what they stand for.  Callee
+    resolution, and rules stated on "the calls of g" or "what is appended to
+    x.items", then see one form.  At most six statements are duplicated."""
+    import copy
+    count = 0
+
+    def leaves(ifst):
+        """bodies of all leaf branches of a complete if/elif/else chain, or None"""
+        out = [ifst.body]
+        if not ifst.orelse:
+            return None
+        if len(ifst.orelse) == 1 and isinstance(ifst.orelse[0], ast.If):
+            rest = leaves(ifst.orelse[0])
+            if rest is None:
+                return None
+            return out + rest
+        return out + [ifst.orelse]
+
+    def dotted_pure(e):
+        while isinstance(e, ast.Attribute):
+            e = e.value
+        return isinstance(e, ast.Name)
+
+    class Sub(ast.NodeTransformer):
+        def __init__(self, mapping):
+            self.mapping = mapping
+
+        def visit_Name(self, node):
+            if node.id in self.mapping and isinstance(node.ctx, ast.Load):
+                return ast.copy_location(copy.deepcopy(self.mapping[node.id]), node)
+            return node
+
+    for fn in ast.walk(tree):
+        if not isinstance(fn, (ast.FunctionDef, ast.AsyncFunctionDef)):
+            continue
+        for holder in ast.walk(fn):
+            for field in ('body', 'orelse', 'finalbody'):
+                block = getattr(holder, field, None)
+                if not (isinstance(block, list) and block and isinstance(block[0], ast.stmt)):
+                    continue
+                i = 0
+                while i + 1 < len(block):
+                    st = block[i]
+                    i += 1
+                    if not isinstance(st, ast.If):
+                        continue
+                    lv = leaves(st)
+                    if lv is None:
+                        continue
+                    # the trailing alias bindings of every leaf
+                    maps = []
+                    for b in lv:
+                        m = {}
+                        for s_ in reversed(b):
+                            if isinstance(s_, ast.Assign) and len(s_.targets) == 1 \
+                                    and isinstance(s_.targets[0], ast.Name) \
+                                    and isinstance(s_.value, (ast.Name, ast.Attribute)) \
+                                    and dotted_pure(s_.value) and s_.targets[0].id not in m:
+                                m[s_.targets[0].id] = s_.value
+                            else:
+                                break
+                        maps.append(m)
+                    if not maps[0] or any(set(m) != set(maps[0]) for m in maps):
+                        continue
+                    names = set(maps[0])
+                    n_alias = len(names)
+                    # a later binding in the same leaf must not read an earlier one
+                    if any(isinstance(x, ast.Name) and x.id in names
+                           for m in maps for v in m.values() for x in ast.walk(v)):
+                        continue
+                    roots = {x.id for m in maps for v in m.values() for x in ast.walk(v)
+                             if isinstance(x, ast.Name)}
+                    tail = block[i:]
+                    # the uses of the locals: in which following statements?
+                    all_uses = [n for n in ast.walk(fn) if isinstance(n, ast.Name) and n.id in names]
+                    used_in = [k for k, t_ in enumerate(tail)
+                               if any(isinstance(n, ast.Name) and n.id in names for n in ast.walk(t_))]
+                    if not used_in:
+                        continue
+                    span = tail[:used_in[-1] + 1]
+                    in_span = sum(1 for t_ in span for n in ast.walk(t_)
+                                  if isinstance(n, ast.Name) and n.id in names)
+                    if len(all_uses) != in_span + n_alias * len(lv) or len(span) > 6:
+                        continue
+                    stored = {n.id for t_ in span for n in ast.walk(t_)
+                              if isinstance(n, ast.Name) and isinstance(n.ctx, (ast.Store, ast.Del))}
+                    if stored & (names | roots):
+                        continue
+                    if any(isinstance(n, (ast.Break, ast.Continue, ast.Return, ast.Yield, ast.YieldFrom))
+                           for t_ in span[:-1] for n in ast.walk(t_)):
+                        continue
+                    if any(isinstance(n, (ast.FunctionDef, ast.Lambda, ast.ClassDef))
+                           for t_ in span for n in ast.walk(t_)):
+                        continue
+                    for b, m in zip(lv, maps):
+                        del b[len(b) - n_alias:]
+                        b.extend(Sub(m).visit(copy.deepcopy(t_)) for t_ in span)
+                    del block[i:i + len(span)]
+                    count += 1
+    if count:
+        ast.fix_missing_locations(tree)
+    return count
+
+
 def unroll_callee_loops(tree):
     """Normalisation: a loop over a short literal sequence of tuples whose
     target is *called* in the body - ``for make, angle in ((rot_z, t), (rot_y,
-    -b)): v = make(angle) @ v`` - is read unrolled, each element substituted,
-    so that the calls can be resolved.  Other literal loops stay loops."""
+    -b)): v = make(angle) @ v`` - or is the object the body changes, is read
+    unrolled, each element substituted, so that the calls can be resolved and
+    the writes attributed.  Other literal loops stay loops."""
     import copy
     count = 0
 
@@ -331,6 +563,21 @@ def unroll_callee_loops(tree):
                     names = [t.id for t in st.target.elts]
                     called = any(isinstance(n, ast.Call) and isinstance(n.func, ast.Name) and n.func.id in names
                                  for b in st.body for n in ast.walk(b))
+                    # ... or is the object that the body changes: `for a, b in ((x, y), (y, x)):
+                    # a.items.append(f(b))` says what happens to x and to y
+                    def root(e):
+                        while isinstance(e, (ast.Attribute, ast.Subscript)):
+                            e = e.value
+                        return e.id if isinstance(e, ast.Name) else None
+                    for b in st.body:
+                        for n in ast.walk(b):
+                            if isinstance(n, ast.Call) and isinstance(n.func, ast.Attribute) \
+                                    and n.func.attr in ('append', 'extend', 'insert', 'remove', 'add', 'update') \
+                                    and root(n.func.value) in names:
+                                called = True
+                            if isinstance(n, (ast.Attribute, ast.Subscript)) and isinstance(n.ctx, ast.Store) \
+                                    and root(n) in names:
+                                called = True
                     stored = any(isinstance(n, ast.Name) and n.id in names and isinstance(n.ctx, ast.Store)
                                  for b in st.body for n in ast.walk(b))
                     jumps = any(isinstance(n, (ast.Break, ast.Continue)) for b in st.body for n in ast.walk(b))
@@ -379,6 +626,7 @@ def inline_pure_temporaries(tree):
     read as that expression.  Hoisting a repeated test or look-up into a local
     is then invisible to the rules.  Returns the number inlined."""
     import copy
+    from .inline import INTRODUCED as introduced
     count = 0
     for fn in [n for n in ast.walk(tree) if isinstance(n, (ast.FunctionDef, ast.AsyncFunctionDef))]:
         stores, captured = {}, set()
@@ -419,7 +667,9 @@ def inline_pure_temporaries(tree):
                         if stores.get(name) != 1 or name in params or name in captured:
                             continue
                         val = st.value
-                        if isinstance(val, (ast.Constant, ast.Name)) or not _pure_value(val) or field_alias(val):
+                        if isinstance(val, ast.Name) and name in introduced:
+                            pass        # a copy that exists only because a helper was expanded
+                        elif isinstance(val, (ast.Constant, ast.Name)) or not _pure_value(val) or field_alias(val):
                             continue
                         size = sum(1 for _ in ast.walk(val))
                         rest = block[i + 1:]
@@ -608,8 +858,10 @@ class Module:
         from .inline import inline_private_helpers
         self.inlined_helpers = inline_private_helpers(self.tree)
         self.unrolled_callee_loops = unroll_callee_loops(self.tree)
+        self.unrolled_comprehensions = unroll_constant_comprehensions(self.tree)
         self.split_tuples = split_tuple_assignments(self.tree)
-        self.unrolled_joins = unroll_join_accumulations(self.tree)
+        self.sunk_callees = sink_selected_callees(self.tree)
+        self.unrolled_joins = unroll_join_accumulations(self.tree) + unroll_join_tails(self.tree)
         self.propagated_constants = propagate_module_constants(self.tree)
         self.inlined_aliases = inline_attribute_aliases(self.tree)
         self.inlined_temporaries = inline_test_temporaries(self.tree)
